@@ -56,6 +56,8 @@ def run(ctx):
     rules["TS-tagbit"] = tagbit_access(ctx, m)
     rules["IDX-ensure"] = loop_item_index(ctx, m)
     rules["SB-loopitem"] = loop_item_fields(ctx, m)
+    from rules.common import rule_stream_past
+    rules["ZB-past"] = rule_stream_past(ctx, m)
     from rules.progress import rule_progress
     rules["PROG"] = rule_progress(ctx, m, CONTRACTS, ["Template.hpp", "Finder.hpp", "StringUtils.hpp", "Digit.hpp", "QExpression.hpp", "Tags.hpp"], floor=55)
     return list(rules.values())
